@@ -174,7 +174,12 @@ def _one(ctx, i, rep=None):
                 'features': sorted(feats | gen_.used_features)}
         key = classify_div(g, s, cfg, ref, got, feats | gen_.used_features, stripped)
         if key is None:
+            key = classify_ws_restore(mm, g, s, cfg, ref, stripped)
+        if key is None:
             key = classify_repaired(mm, g, s, cfg, ref, gen_.used_features)
+        if key is None and stripped:
+            # both recorded Arpeggio mechanisms at work in one parse
+            key = classify_repaired(mm, g, s, cfg, ref, gen_.used_features, also=('eolterm-ws-restore',))
         ctx.violation(key, 'reference %s / textX %s on input %r (cfg %s)' % (ref[0], got[0], s[:60], cfg), case, rep)
 
 
@@ -196,19 +201,35 @@ def classify_div(g, s, cfg, ref, got, feats, stripped_restores=0):
             return {'dangling-separator': 'dangling-separator',
                     'abstract-all-match:first-nonterminal': 'abstract-all-match-alternative'}[emu[0]] if len(emu) == 1 \
                 else 'dangling-separator'
-    if stripped_restores:
-        return 'eolterm-ws-restore'
     return None
 
 
-def classify_repaired(mm, g, s, cfg, ref, feats):
+def classify_ws_restore(mm, g, s, cfg, ref, stripped_restores):
+    """explained-by for Arpeggio's ws restore inside an eolterm repetition: the monitor must have seen the write of the
+    newline-stripped set, and the divergence must disappear when textX runs on an Arpeggio that saves and restores the real set"""
+    if not stripped_restores:
+        return None
+    from tv.hooks import arpeggio_repaired
+    with arpeggio_repaired({'eolterm-ws-restore'}):
+        got2 = P.textx_outcome(mm, s)
+    g2 = ('reject',) if got2[0] == 'reject' else got2
+    if g2 == ref:
+        return 'eolterm-ws-restore'
+    for emu in EMULATIONS:
+        r2, _ = P.ref_outcome(g, s, cfg, emulate=emu)
+        if r2 == g2:
+            return 'eolterm-ws-restore'
+    return None
+
+
+def classify_repaired(mm, g, s, cfg, ref, feats, also=()):
     """explained-by for Arpeggio's result convention: the divergence must disappear when textX runs once more on an Arpeggio
     in which exactly that convention is repaired (harness-side); combined with the other recorded mechanisms the repaired run
     must equal the reference that emulates those."""
     if not any(f.startswith(('nullable-', 'repetition-of-suppressed')) for f in feats):
         return None
     from tv.hooks import arpeggio_repaired
-    with arpeggio_repaired({'falsy-result'}):
+    with arpeggio_repaired({'falsy-result'} | set(also)):
         got2 = P.textx_outcome(mm, s)
     g2 = ('reject',) if got2[0] == 'reject' else got2
     if g2 == ref:
